@@ -366,6 +366,13 @@ def powerCoeffs (ufunc : String) : Option (Int × Int) :=
 def powerMap (ufunc : String) (n : Nat) : Option Int :=
   (powerCoeffs ufunc).map fun c => c.1 * n + c.2
 
+/-- the count `_apply_power_mapping` feeds to `POWER_MAPPING`: `in_shape[axis]` when an `axis`
+    keyword was passed, else `in_size` (the whole array) -/
+def reduceCount (shape : List Nat) (axisKw : Option Nat) : Nat :=
+  match axisKw with
+  | some a => shape.getD a 1
+  | none => shape.foldl (· * ·) 1
+
 /-- the unary branch (one input; also `reduce` / `accumulate` of binary ufuncs): the argument
     the kernel receives and `(mul, unit)`.  `n` is `inp.size` (or `inp.shape[axis]`). -/
 structure UOut (K : Type) where
